@@ -155,6 +155,49 @@ func runC12(c *Ctx) {
 	}
 	p := lr.p
 	limitBatchLoop(c, lr, "Q6")
+	// Q7: one goroutine and one output channel per discipline, both created by the constructor. A
+	// goroutine or channel created later, from an API method, is created once per racing caller:
+	// consumers then hold different channels, some never written and never closed
+	r.Doc("Q7", "the goroutine is started, and the output channel made, by the constructor only", 2)
+	for _, e := range lr.d.Gos {
+		inCtor := false
+		for _, ct := range lr.d.Ctors {
+			if e.Stmt != nil && e.Stmt.Parent() == ct {
+				inCtor = true
+			}
+		}
+		where := "-"
+		if e.Stmt != nil {
+			where = p.InstrPos(e.Stmt)
+		}
+		r.Check(inCtor && !e.Multi, "Q7", p.FnKey(e.Entry)+"#go", where, "started once, by the constructor", "the discipline's goroutine is not started (once) by the constructor: concurrent first calls start several goroutines over several output channels; elements are reordered, and a consumer can hold a channel that is never written nor closed")
+	}
+	{
+		n := 0
+		okAll := true
+		for _, fn := range p.Funcs() {
+			if rel, _ := p.Rel(fn); rel != "limit" {
+				continue
+			}
+			for _, b := range fn.Blocks {
+				for _, in := range b.Instrs {
+					if st, ok := fieldStore(in, "output"); ok && namedOrigin(st.Addr.(*ssa.FieldAddr).X.Type()) == lr.d.Named {
+						n++
+						isCtor := false
+						for _, ct := range lr.d.Ctors {
+							if fn == ct {
+								isCtor = true
+							}
+						}
+						if !isCtor {
+							okAll = false
+						}
+					}
+				}
+			}
+		}
+		r.Check(okAll && n > 0, "Q7", p.FnKey(lr.d.Ctors[0])+"#output", p.Pos(lr.d.Ctors[0].Pos()), "output channel made by the constructor", "the output channel is (also) made outside the constructor: different callers can be given different channels")
+	}
 	// Q1 item flow
 	cfg := &ItemFlowConfig{
 		P:        p,
